@@ -148,7 +148,7 @@ def _send(name, buf, fr, env=ENV, noack=Bool(), so=Bool()):
                     requires=[R + "req_send"],
                     ensures=[("fate", R + "ens_send_fate"), ("own_payload", R + "ens_send_own_payload"), ("ackpl", R + "ens_send_ackpl"),
                              ("send_inv", R + "ens_send_inv")],
-                    raises=(), policy=INL, props=["C02"], max_paths=20000, timeout_ms=60000)
+                    raises=(), policy=INL, props=["C02"], max_paths=20000, timeout_ms=60000, poll_bound=12)
 
 
 CONTRACTS = [
@@ -165,7 +165,7 @@ CONTRACTS = [
              requires=[R + "req_pending"], ensures=[("stutter", R + "ens_stutter")], raises=(), policy=INL, props=["C02"]),
     Contract("C02.resend", "rf24:RF24.resend", {"self": rf24_schema(p0=Const(None), env=ENV), "send_only": Bool()},
              requires=[R + "req_resend"], ensures=[("fate", R + "ens_resend"), ("send_inv", R + "ens_send_inv")],
-             raises=(), policy=INL, props=["C02"], max_paths=20000, timeout_ms=60000),
+             raises=(), policy=INL, props=["C02"], max_paths=20000, timeout_ms=60000, poll_bound=12),
 ]
 
 
@@ -310,8 +310,8 @@ CONTRACTS += [
              {"self": rf24_schema(p0=Const(None), env=ENV), "buf": Bytes(0, None), "ask_no_ack": Const(False), "force_retry": Const(0),
               "send_only": Const(True)},
              requires=[R + "req_send_net"], ensures=[("allowed_by_ref_send_net", R + "ens_send_simulates")],
-             raises=(), policy=INL, props=["C02", "C05", "C07", "C15"], max_paths=20000, timeout_ms=60000),
+             raises=(), policy=INL, props=["C02", "C05", "C07", "C15"], max_paths=20000, timeout_ms=60000, poll_bound=12),
     Contract("C02.resend.simulates_net_abstraction", "rf24:RF24.resend", {"self": rf24_schema(p0=Const(None), env=ENV), "send_only": Const(True)},
              requires=[R + "req_resend"], ensures=[("allowed_by_ref_resend_net", R + "ens_resend_simulates")],
-             raises=(), policy=INL, props=["C02", "C05", "C07", "C15"], max_paths=20000, timeout_ms=60000),
+             raises=(), policy=INL, props=["C02", "C05", "C07", "C15"], max_paths=20000, timeout_ms=60000, poll_bound=12),
 ]
